@@ -18,6 +18,7 @@ import queue as _queue
 import numpy as np
 
 from vlib import nx
+from vlib.run import BudgetExceeded
 
 M_MP = importlib.import_module("nucs.solvers.multiprocessing_solver")
 MultiprocessingSolver = M_MP.MultiprocessingSolver
@@ -38,10 +39,16 @@ class Transport:
         self.order = []  # worker index of each delivered message
         self.started = []
         self.empty_polls = 0
+        self.puts = 0
+        self.max_messages = 50000
 
     # worker side
     def put(self, item):
         idx, solution, statistics = item
+        self.puts += 1
+        if self.puts > self.max_messages:
+            # a worker that never stops sending (non-terminating optimisation) must not exhaust the memory
+            raise BudgetExceeded("the workers sent more than %d messages" % self.max_messages)
         self.streams[idx].append([idx, None if solution is None else np.array(solution, copy=True), np.array(statistics, copy=True)])
 
     def finalize(self):
